@@ -1,4 +1,5 @@
 import CffiVerif.Model.PkgConfig
+import CffiVerif.Generated.PkgConfigPy
 
 /-! Lemmas behind the C35 theorems. -/
 namespace CffiVerif.PkgConfig
@@ -385,5 +386,65 @@ theorem flagsLoop_ok (env : Str → Flag → Proc) (libs : List Str) (ret r : Cf
         simp only [h1, h2] at h
         obtain ⟨cfgs, hf, hr⟩ := ih _ h
         exact ⟨kwargsOf cf lb :: cfgs, by simp [perLib, libCfg, h1, h2, hf], by simp [hr]⟩
+
+/-! ### the model is the translation of the Python source (`Generated/PkgConfigPy.lean`) -/
+
+open CffiVerif.Generated in
+theorem startsWith_eq_starts2 (a b : Nat) (x : Str) : PyText.startsWith [a, b] x = starts2 a b x := by
+  match x with
+  | [] => simp [PyText.startsWith, starts2, List.isPrefixOf]
+  | [p] => simp [PyText.startsWith, starts2, List.isPrefixOf]
+  | p :: q :: r =>
+    simp only [PyText.startsWith, starts2, List.isPrefixOf, Bool.and_true]
+    rw [Bool.eq_iff_iff]
+    simp only [Bool.and_eq_true, beq_iff_eq]
+    constructor <;> rintro ⟨rfl, rfl⟩ <;> exact ⟨rfl, rfl⟩
+
+theorem splitEq_eq_split1 (y : Str) :
+    splitEq y = if PyText.contains 61 y then some (PyText.split1 61 y) else none := by
+  induction y with
+  | nil => simp [splitEq, PyText.contains]
+  | cons c cs ih =>
+    simp only [splitEq, PyText.split1, PyText.contains] at ih ⊢
+    by_cases hc : c = 61
+    · simp [hc]
+    · have hc' : ¬ (61 = c) := fun e => hc e.symm
+      simp only [hc, if_false, ih, List.contains_cons]
+      have hb : (61 == c) = false := by simp [hc']
+      by_cases hm : 61 ∈ cs
+      · simp [hm, hb]
+      · simp [hm, hb]
+
+theorem macroOf_eq_macro_ (x : Str) : macroOf x = Generated.PkgConfigPy.macro_ x := by
+  unfold macroOf Generated.PkgConfigPy.macro_
+  rw [splitEq_eq_split1]
+  by_cases h : PyText.contains 61 (List.drop 2 x) = true
+  · simp [h]
+  · simp [h]
+
+theorem mergeKey_eq_merge_step {κ α : Type} [DecidableEq κ] (cfg : Cfg κ α) (k : κ) (v : List α) :
+    mergeKey cfg k v = Generated.PkgConfigPy.merge_step cfg k v := by
+  unfold Generated.PkgConfigPy.merge_step
+  induction cfg with
+  | nil => simp [mergeKey, PyText.dictHas, PyText.dictSetNew]
+  | cons p ps ih =>
+    obtain ⟨k0, v0⟩ := p
+    by_cases h : k0 = k
+    · simp [mergeKey, PyText.dictHas, PyText.dictExtend, h]
+    · simp only [mergeKey, h, if_false, ih]
+      by_cases hh : PyText.dictHas ps k = true
+      · have : PyText.dictHas ((k0, v0) :: ps) k = true := by
+          simp only [PyText.dictHas, List.any_cons] at hh ⊢; simp [hh]
+        simp [hh, this, PyText.dictExtend, h]
+      · have : PyText.dictHas ((k0, v0) :: ps) k = false := by
+          simp only [PyText.dictHas, List.any_cons, Bool.not_eq_true] at hh ⊢; simp [hh, h]
+        simp only [Bool.not_eq_true] at hh
+        simp [hh, this, PyText.dictSetNew]
+
+/-- the keyword a `KeyName` stands for -/
+def KeyName.name : KeyName → String
+  | .include_dirs => "include_dirs" | .library_dirs => "library_dirs" | .libraries => "libraries"
+  | .define_macros => "define_macros" | .extra_compile_args => "extra_compile_args"
+  | .extra_link_args => "extra_link_args"
 
 end CffiVerif.PkgConfig
